@@ -13,11 +13,24 @@ import (
 // the edges asserting the atom cut, finds nothing. transfer (optional) lets the flow
 // continue through a non-phi definition (return the operands the value is copied from).
 func FlowPath(v ssa.Value, use ssa.Instruction, isSource func(ssa.Value) bool, cut map[Edge]bool, transfer func(ssa.Value) []ssa.Value) bool {
+	return flowPath(v, use, isSource, cut, transfer, nil, false)
+}
+
+// FlowPathVia is FlowPath restricted to flows whose CFG path, between the definition of
+// the source value and the use, takes at least one edge of via: "the value still arrives
+// although the branch asserting X was taken after it was produced".
+func FlowPathVia(v ssa.Value, use ssa.Instruction, isSource func(ssa.Value) bool, via map[Edge]bool) bool {
+	return flowPath(v, use, isSource, nil, nil, via, false)
+}
+
+func flowPath(v ssa.Value, use ssa.Instruction, isSource func(ssa.Value) bool, cut map[Edge]bool, transfer func(ssa.Value) []ssa.Value, via map[Edge]bool, crossed0 bool) bool {
 	type state struct {
-		v     ssa.Value
-		b     *ssa.BasicBlock
-		entry bool // value needed at entry (true) or at exit (false) of b
+		v       ssa.Value
+		b       *ssa.BasicBlock
+		entry   bool // value needed at entry (true) or at exit (false) of b
+		crossed bool // a via edge lies between here and the use
 	}
+	found := func(crossed bool) bool { return via == nil || crossed }
 	seen := map[state]bool{}
 	var stack []state
 	push := func(s state) {
@@ -36,13 +49,13 @@ func FlowPath(v ssa.Value, use ssa.Instruction, isSource func(ssa.Value) bool, c
 	ub := use.Block()
 	if db := defBlock(v); db == ub {
 		if _, isPhi := v.(*ssa.Phi); isPhi {
-			push(state{v, ub, true})
+			push(state{v, ub, true, crossed0})
 		} else {
 			// defined in the use block before the use: resolve the definition directly
-			push(state{v, ub, false})
+			push(state{v, ub, false, crossed0})
 		}
 	} else {
-		push(state{v, ub, true})
+		push(state{v, ub, true, crossed0})
 	}
 	for len(stack) > 0 {
 		s := stack[len(stack)-1]
@@ -55,7 +68,7 @@ func FlowPath(v ssa.Value, use ssa.Instruction, isSource func(ssa.Value) bool, c
 					if cut[Edge{p, s.b}] {
 						continue
 					}
-					push(state{Strip(e), p, false})
+					push(state{Strip(e), p, false, s.crossed || via[Edge{p, s.b}]})
 				}
 				continue
 			}
@@ -63,7 +76,7 @@ func FlowPath(v ssa.Value, use ssa.Instruction, isSource func(ssa.Value) bool, c
 				if cut[Edge{p, s.b}] {
 					continue
 				}
-				push(state{x, p, false})
+				push(state{x, p, false, s.crossed || via[Edge{p, s.b}]})
 			}
 			continue
 		}
@@ -71,7 +84,7 @@ func FlowPath(v ssa.Value, use ssa.Instruction, isSource func(ssa.Value) bool, c
 		db := defBlock(x)
 		if db != s.b {
 			if db == nil {
-				if isSource(x) {
+				if isSource(x) && found(s.crossed) {
 					return true
 				}
 				// a parameter of a private helper: the flow continues at the only call site
@@ -79,7 +92,7 @@ func FlowPath(v ssa.Value, use ssa.Instruction, isSource func(ssa.Value) bool, c
 					if cs := privateCallSite(par.Parent()); cs != nil {
 						for i, q := range par.Parent().Params {
 							if q == par && i < len(cs.Common().Args) {
-								if FlowPath(cs.Common().Args[i], cs, isSource, cut, transfer) {
+								if flowPath(cs.Common().Args[i], cs, isSource, cut, transfer, via, s.crossed) {
 									return true
 								}
 							}
@@ -88,14 +101,14 @@ func FlowPath(v ssa.Value, use ssa.Instruction, isSource func(ssa.Value) bool, c
 				}
 				continue // parameter/constant that is not a source
 			}
-			push(state{x, s.b, true})
+			push(state{x, s.b, true, s.crossed})
 			continue
 		}
 		if _, ok := x.(*ssa.Phi); ok {
-			push(state{x, s.b, true})
+			push(state{x, s.b, true, s.crossed})
 			continue
 		}
-		if isSource(x) {
+		if isSource(x) && found(s.crossed) {
 			return true
 		}
 		// the result of a helper of the repository: the flow continues at its returns
@@ -115,7 +128,7 @@ func FlowPath(v ssa.Value, use ssa.Instruction, isSource func(ssa.Value) bool, c
 					found := false
 					Instrs(cal, func(in ssa.Instruction) {
 						if r, ok := in.(*ssa.Return); ok && idx < len(r.Results) && in.Block() != cal.Recover && !found {
-							if FlowPath(r.Results[idx], r, isSource, cut, transfer) {
+							if flowPath(r.Results[idx], r, isSource, cut, transfer, via, s.crossed) {
 								found = true
 							}
 						}
@@ -132,12 +145,12 @@ func FlowPath(v ssa.Value, use ssa.Instruction, isSource func(ssa.Value) bool, c
 				o = Strip(o)
 				if defBlock(o) == s.b {
 					if _, isPhi := o.(*ssa.Phi); isPhi {
-						push(state{o, s.b, true})
+						push(state{o, s.b, true, s.crossed})
 					} else {
-						push(state{o, s.b, false})
+						push(state{o, s.b, false, s.crossed})
 					}
 				} else {
-					push(state{o, s.b, true})
+					push(state{o, s.b, true, s.crossed})
 				}
 			}
 		}
